@@ -586,5 +586,49 @@ theorem step37_eof {ct : Option TagOutline} (hf : findByte 39 (inp.drop p) = non
   generalize andThen _ _ = r
   rcases r with ⟨m, _ | s⟩ <;> simp
 
+/-! ### quoted value resumed after a chunk boundary (enter action already run) -/
+
+theorem step38_found_r {nm : Range} {h : Nat} {ns : Ns} {as : List AttrOutline} {sc : Bool} {a : AttrOutline} {k : Nat}
+    (hf : findByte 34 (inp.drop p) = some k) :
+    stateFn env inp ⟨⟨p, il, 38, true, ca, lsh, 34, ltt⟩, .lexer ⟨ls, tps, some (.startTag nm h ns as sc), cnt, some a, fd⟩, x⟩
+      = (⟨⟨p + k + 1, il, 33, false, ca, lsh, 34, ltt⟩,
+          .lexer ⟨ls, tps, some (.startTag nm h ns (as ++ [⟨a.name, ⟨tps, p + k⟩, ⟨a.raw.start, p + k + 1⟩⟩]) sc), cnt, none, fd⟩, x⟩, none) := by
+  have hq : inp[p + k]? = some 34 := by
+    have := findByte_getElem hf
+    simpa using this
+  step_prelude 38 (expQuoted 34)
+  simp [dispatch, runSeqArms, findArm, patMatches, runBody, runSeq, runCalls, act, lexAct, applyTrans,
+    tokenPartRange, hf, Nat.add_right_comm p 1 k, hq]
+
+theorem step37_found_r {nm : Range} {h : Nat} {ns : Ns} {as : List AttrOutline} {sc : Bool} {a : AttrOutline} {k : Nat}
+    (hf : findByte 39 (inp.drop p) = some k) :
+    stateFn env inp ⟨⟨p, il, 37, true, ca, lsh, 39, ltt⟩, .lexer ⟨ls, tps, some (.startTag nm h ns as sc), cnt, some a, fd⟩, x⟩
+      = (⟨⟨p + k + 1, il, 33, false, ca, lsh, 39, ltt⟩,
+          .lexer ⟨ls, tps, some (.startTag nm h ns (as ++ [⟨a.name, ⟨tps, p + k⟩, ⟨a.raw.start, p + k + 1⟩⟩]) sc), cnt, none, fd⟩, x⟩, none) := by
+  have hq : inp[p + k]? = some 39 := by
+    have := findByte_getElem hf
+    simpa using this
+  step_prelude 37 (expQuoted 39)
+  simp [dispatch, runSeqArms, findArm, patMatches, runBody, runSeq, runCalls, act, lexAct, applyTrans,
+    tokenPartRange, hf, Nat.add_right_comm p 1 k, hq]
+
+theorem step38_eof_r {l : LexRegs} (hf : findByte 34 (inp.drop p) = none) :
+    stateFn env inp ⟨⟨p, il, 38, true, ca, lsh, 34, ltt⟩, .lexer l, x⟩
+      = eofStep env inp ⟨p + 1 + (inp.drop p).length, il, 38, true, ca, lsh, 34, ltt⟩ l x := by
+  step_prelude 38 (expQuoted 34)
+  simp [dispatch, runSeqArms, findArm, patMatches, runBody, runSeq, runCalls, act, lexAct, eofStep, Common.pos, hf]
+  cases il <;> simp
+  generalize andThen _ _ = r
+  rcases r with ⟨m, _ | s⟩ <;> simp
+
+theorem step37_eof_r {l : LexRegs} (hf : findByte 39 (inp.drop p) = none) :
+    stateFn env inp ⟨⟨p, il, 37, true, ca, lsh, 39, ltt⟩, .lexer l, x⟩
+      = eofStep env inp ⟨p + 1 + (inp.drop p).length, il, 37, true, ca, lsh, 39, ltt⟩ l x := by
+  step_prelude 37 (expQuoted 39)
+  simp [dispatch, runSeqArms, findArm, patMatches, runBody, runSeq, runCalls, act, lexAct, eofStep, Common.pos, hf]
+  cases il <;> simp
+  generalize andThen _ _ = r
+  rcases r with ⟨m, _ | s⟩ <;> simp
+
 end
 end LolHtml.Model.TagStates
